@@ -392,9 +392,9 @@ def units(tier, seed):
             out.append(("dfs", {"R": R, "W": W, "rounds": 1, "prefixes": [list(p)], "lines": True,
                                 "max_runs": 1500 if q else None}))
     # the same after a refused call (writer_release on the free lock)
-    for (R, W, ln) in ((1, 1, True), (0, 2, True), (2, 0, True), (1, 2, False), (2, 1, False), (0, 3, False)):
+    for (R, W, ln) in ((1, 1, True), (0, 2, True), (1, 2, False), (2, 1, False)) + (() if q else ((2, 0, True), (0, 3, False))):
         out.append(("dfs", {"R": R, "W": W, "rounds": 1, "lines": ln, "fault": "writer-release-on-free-lock",
-                            "max_runs": 4000 if q else None}))
+                            "max_runs": (1500 if ln else 2500) if q else None}))
     # four / five threads at mutex granularity
     for (R, W) in ((3, 1), (2, 2)):
         for p in itertools.product(range(R + W), repeat=2):
